@@ -155,8 +155,8 @@ def topoOk (T : Topo) : Bool :=
   decide (T.stations.Nodup) &&
   decide (T.conNames.length = T.rows.length) && decide (T.lims.length = T.rows.length) &&
   decide (0 < T.rows.length) &&
-  -- every EVSE carries a line-to-line angle and the nominal 208 V
-  T.angles.all lineAngle && T.voltages.all (· == (208, 1)) &&
+  -- every EVSE carries a line-to-line angle and the `voltage` argument of the factory
+  T.angles.all lineAngle && T.voltages.all (· == T.nominalV) &&
   -- sparse rows are well formed
   T.rows.all (fun row => row.all fun e => decide (e.1 < nStations T) && decide (0 < e.2.2)) &&
   T.xfmrs.all (xfmrOk T) && T.panels.all (panelOk T) && T.pods.all (podOk T) &&
@@ -165,6 +165,64 @@ def topoOk (T : Topo) : Bool :=
     decide ((T.xfmrs.filter fun x => x.sec.evses.contains j).length = 1)) &&
   -- every row is a pod, a panel line, or a transformer row — exactly once
   ((List.range T.rows.length).all fun i => decide ((roleRows T).count i = 1))
+
+/-! ## diagnostics: WHICH check of `topoOk` fails (driver / evidence; not used by the theorems) -/
+
+def showQ (p : Int × Nat) : String := if p.2 == 1 then toString p.1 else toString p.1 ++ "/" ++ toString p.2
+
+def conName (T : Topo) (i : Nat) : String := "'" ++ T.conNames.getD i ("#" ++ toString i) ++ "'"
+def stName (T : Topo) (j : Nat) : String := T.stations.getD j ("#" ++ toString j)
+
+/-- mismatches of one line row against `e_j · sgn(angle_j)` -/
+def rowDiag (T : Topo) (evses : List Nat) (i : Nat) (sgn : Int × Nat → Int) (what : String) : List String :=
+  if T.rows.length ≤ i then [s!"{what}: row index {i} does not exist"] else
+  (List.range (nStations T)).filterMap fun j =>
+    let e : Int := if evses.contains j then 1 else 0
+    let want : Int × Nat := (e * sgn (angleOf T j), 1)
+    if coeff (rowOf T i) j == want then none
+    else some s!"{conName T i} ({what}): station {stName T j} at {showQ (angleOf T j)}° has coefficient {showQ (coeff (rowOf T i) j)}, expected {showQ want}"
+
+def tripleDiag (T : Topo) (tr : Triple) : List String :=
+  (if tr.evses.Nodup then [] else ["EVSE set has duplicates"]) ++
+  rowDiag T tr.evses tr.a sgnA "I_a = AB − CA" ++ rowDiag T tr.evses tr.b sgnB "I_b = BC − AB" ++
+  rowDiag T tr.evses tr.c sgnC "I_c = CA − BC"
+
+def showLim : Lim → String
+  | .const n d => showQ (n, d)
+  | .ofCap k ops => match normOps ops with
+    | some (N, D, odd) => s!"cap{k}·{N}/{D}" ++ (if odd then "·√3" else "")
+    | none => s!"cap{k}·(invalid chain)"
+  | .unknown => "unreadable"
+
+def topoDiag (T : Topo) : List String :=
+  (if T.angles.length = nStations T ∧ T.voltages.length = nStations T ∧ T.conNames.length = T.rows.length
+      ∧ T.lims.length = T.rows.length ∧ 0 < T.rows.length then [] else ["array lengths do not match"]) ++
+  (if T.stations.Nodup then [] else ["duplicate station ids"]) ++
+  ((List.range (nStations T)).filterMap fun j =>
+    if lineAngle (angleOf T j) then none
+    else some s!"station {stName T j}: phase angle {showQ (angleOf T j)}° is not a line-to-line angle") ++
+  ((List.range (nStations T)).filterMap fun j =>
+    if T.voltages.getD j (0, 1) == T.nominalV then none
+    else some s!"station {stName T j}: voltage {showQ (T.voltages.getD j (0, 1))} ≠ {showQ T.nominalV}") ++
+  (T.xfmrs.flatMap fun x =>
+    (tripleDiag T x.sec).map (s!"transformer '{x.name}': " ++ ·) ++
+    ([(x.pa, x.sec.a, x.sec.c), (x.pb, x.sec.b, x.sec.a), (x.pc, x.sec.c, x.sec.b)].filterMap fun (p, a, c) =>
+      if primaryOk T p a c then none
+      else some s!"transformer '{x.name}': {conName T p} is not ¼({conName T a} − {conName T c})") ++
+    (if xfmrOk T x || !(tripleOk T x.sec) then [] else
+      [s!"transformer '{x.name}': limits {showLim (limOf T x.sec.a)}, {showLim (limOf T x.sec.b)}, {showLim (limOf T x.sec.c)} / primary {showLim (limOf T x.pa)}: secondary is not cap·1000/3/120 on all three rows (or a primary limit is not a positive multiple of the same capacity)"])) ++
+  (T.panels.flatMap fun p =>
+    (tripleDiag T p.lines).map (s!"panel '{p.name}': " ++ ·) ++
+    (if (panelRating T p).isSome then [] else [s!"panel '{p.name}': the three line rows do not carry one literal rating"])) ++
+  (T.pods.filterMap fun p =>
+    if podOk T p then none
+    else some s!"pod {conName T p.row}: not a 0/1 indicator of same-angle EVSEs with a literal rating (limit {showLim (limOf T p.row)})") ++
+  ((List.range (nStations T)).filterMap fun j =>
+    let k := (T.xfmrs.filter fun x => x.sec.evses.contains j).length
+    if k = 1 then none else some s!"station {stName T j} is under {k} transformers") ++
+  ((List.range T.rows.length).filterMap fun i =>
+    let k := (roleRows T).count i
+    if k = 1 then none else some s!"constraint {conName T i} has {k} roles (pod / panel line / transformer row)")
 
 /-! ## limits of an executed instance against the parsed formulas (exact rationals) -/
 
